@@ -77,6 +77,11 @@ def generate(seed, tier):
                 lines.append("res2 fail %s" % hx(h))
             else:
                 lines.append(("res2 ok %s " % hx(h) + " ".join(hx(x) for x in pool if g.chance(0.6))).rstrip())
+            if g.chance(0.15):
+                # another listener names the same pool now (the name is known, maybe resolved already)
+                hj = g.pick(hosts)
+                lines.append("res2 join %s %s" % (proto, hx("%s:%s" % hj)))
+                g.count("second_subscription")
             if proto == "udp" and g.chance(0.5):
                 lines.append("res2 disp")
         if proto == "udp":
